@@ -205,7 +205,7 @@ def run(ctx):
     import glob
     env.init()
     consts = {"MaxList": 2, "Full": "FALSE"} if ctx.quick else {"MaxList": 3, "Full": "TRUE"}
-    cases = table.generate(ctx, "ConflictsGen", consts, workers=8,
+    cases = table.generate(ctx, "ConflictsGen", consts, workers=4,
                            witnesses=("WitnessPartial",))      # further witnesses are ASSUMEs inside ConflictsGen
     if not cases:
         ctx.machinery("ConflictsGen produced no cases")
